@@ -202,6 +202,11 @@ InvFrame == (lastT # <<>> /\ Parses(lastT) /\ ~HasIdent(lastT)) =>
 NumberTokens  == {"0", "1", "2.5", "-1", "1e3", "10", "3.", "007"}
 AllowedTokens == NumberTokens \cup Stats \cup {"+", "-", "*", "/", "(", ")"}
 Accepts(tokens) == \A i \in 1..Len(tokens) : tokens[i] \in AllowedTokens
+\* a whole variable configuration: tests, each a sequence of entries in the order they are written --
+\* [kind |-> "spec", tokens] for a limit specification, [kind |-> "bbox"] for a per-test bounding box.
+\* It is accepted exactly if every specification of every test is, wherever it is written.
+AcceptsCfg(tests) == \A i \in 1..Len(tests) : \A j \in 1..Len(tests[i]) :
+                         tests[i][j].kind = "spec" => Accepts(tests[i][j].tokens)
 
 -----------------------------------------------------------------------------
 (* 4. QcConfigCreator.create_config on a climatology that is constant in   *)
